@@ -28,13 +28,23 @@ type entry struct {
 }
 
 type c17Case struct {
-	Entries []entry  `json:"entries"`
-	Prefix  string   `json:"prefix"`
-	Index   string   `json:"index"`
-	Listing bool     `json:"listing"`
-	Paths   []string `json:"paths"` // URL paths (already decoded form, as r.URL.Path carries them)
+	Entries  []entry  `json:"entries"`
+	Prefix   string   `json:"prefix"`
+	Index    string   `json:"index"`
+	Listing  bool     `json:"listing"`
+	Paths    []string `json:"paths"` // URL paths (already decoded form, as r.URL.Path carries them)
 	SendFile []string `json:"send_file,omitempty"`
 	EvilName string   `json:"evil_name,omitempty"` // name of the sibling directory that looks like the root ("root")
+	// Relayout: after every path has been requested once, these paths (relative to the root) are
+	// replaced - by a link to a file or directory outside the root, by a link inside, or removed -
+	// and every path is requested again from the same server: whatever it remembers about a path
+	// must not outlive the layout it was true for.
+	Relayout []relay `json:"relayout,omitempty"`
+}
+
+type relay struct {
+	Path string `json:"path"`
+	To   string `json:"to"` // outside-file outside-dir evil-dir inside-file remove
 }
 
 // siblings of the root whose name a careless containment test takes for the root itself:
@@ -116,6 +126,16 @@ func genC17(rt *rapid.T) c17Case {
 		}
 		c.Paths = append(c.Paths, p)
 	}
+	if lang.Spread(rt, "relayout", 100) < 40 {
+		for i, n := 0, 1+lang.Spread(rt, "nrelay", 3); i < n; i++ {
+			e := c.Entries[lang.Spread(rt, fmt.Sprintf("rle%d", i), len(c.Entries))]
+			p := e.Path
+			if lang.Spread(rt, fmt.Sprintf("rlparent%d", i), 3) == 0 && strings.Contains(p, "/") {
+				p = p[:strings.LastIndex(p, "/")] // the directory above it
+			}
+			c.Relayout = append(c.Relayout, relay{Path: p, To: []string{"outside-file", "outside-file", "outside-dir", "evil-dir", "inside-file", "remove"}[lang.Spread(rt, fmt.Sprintf("rlto%d", i), 6)]})
+		}
+	}
 	for i, n := 0, lang.Spread(rt, "nsf", 4); i < n; i++ {
 		c.SendFile = append(c.SendFile, []string{"plain.txt", "../outside/secret.txt", "/etc/hostname", "", ".", relPath(rt), "lnk", "sub/../../outside/secret.txt", "../" + c.EvilName + "/f.txt"}[lang.Spread(rt, "sf", 9)])
 	}
@@ -141,8 +161,8 @@ func runC17(c c17Case) evid.Outcome {
 	for _, d := range area {
 		os.MkdirAll(d, 0o755)
 	}
-	inside := map[string]string{}  // content -> path
-	outside := map[string]bool{}   // content tokens that must never be served
+	inside := map[string]string{} // content -> path
+	outside := map[string]bool{}  // content tokens that must never be served
 	n := 0
 	resolveTarget := func(t string) string {
 		parts := strings.SplitN(t, ":", 3)
@@ -231,34 +251,73 @@ func runC17(c c17Case) evid.Outcome {
 		return &evid.Failure{Key: "c17.unexpected-status", Msg: fmt.Sprintf("%s: status %d %q", what, status, body)}
 	}
 
-	for _, p := range c.Paths {
-		r := &http.Request{Method: "GET", URL: &url.URL{Path: p}, Header: http.Header{}, Host: "verif.test"}
-		w := httptest.NewRecorder()
-		var panicked interface{}
-		func() {
-			defer func() { panicked = recover() }()
-			srv.ServeHTTP(w, r)
-		}()
-		if panicked != nil {
-			return evid.Failf("c17.panic", "GET %q: %v", p, panicked)
-		}
-		if f := check(fmt.Sprintf("GET %q (prefix %q, index %q, listing %v)", p, c.Prefix, c.Index, c.Listing), w.Code, w.Body.String()); f != nil {
-			f.Msg += fmt.Sprintf("\nentries: %+v", c.Entries)
-			return evid.Outcome{Fail: f}
-		}
-		// did the request try to leave the root, lexically or through a link?
-		rel := p
-		if c.Prefix != "" {
-			rel = strings.TrimPrefix(rel, c.Prefix)
-		}
-		lex := filepath.Join(realRoot, filepath.FromSlash("/"+rel))
-		if real, err := filepath.EvalSymlinks(lex); err == nil && real != realRoot && !strings.HasPrefix(real, realRoot+string(filepath.Separator)) {
-			labels["resolves-outside"] = true
+	phases := 1
+	if len(c.Relayout) > 0 {
+		phases = 2
+	}
+	for phase := 0; phase < phases; phase++ {
+		if phase == 1 {
+			for _, rl := range c.Relayout {
+				full := filepath.Join(area["root"], filepath.FromSlash(rl.Path))
+				if full == area["root"] {
+					continue
+				}
+				os.RemoveAll(full)
+				switch rl.To {
+				case "outside-file":
+					os.Symlink(filepath.Join(area["outside"], "secret.txt"), full)
+				case "outside-dir":
+					os.Symlink(area["outside"], full)
+				case "evil-dir":
+					os.Symlink(area["evil"], full)
+				case "inside-file":
+					os.Symlink(filepath.Join(area["root"], "plain.txt"), full)
+				}
+			}
+			// what is inside the root now: the regular files physically below it (Walk does not follow links)
+			for tok := range inside {
+				delete(inside, tok)
+			}
+			filepath.Walk(realRoot, func(p string, info os.FileInfo, err error) error {
+				if err == nil && info.Mode().IsRegular() {
+					if b, rerr := os.ReadFile(p); rerr == nil && strings.HasPrefix(string(b), "TOKEN-root-") {
+						inside[string(b)] = p
+					}
+				}
+				return nil
+			})
+			labels["layout-changed-between-requests"] = true
 			nontrivial = true
 		}
-		if strings.Contains(p, "..") {
-			labels["dot-dot"] = true
-			nontrivial = true
+		for _, p := range c.Paths {
+			r := &http.Request{Method: "GET", URL: &url.URL{Path: p}, Header: http.Header{}, Host: "verif.test"}
+			w := httptest.NewRecorder()
+			var panicked interface{}
+			func() {
+				defer func() { panicked = recover() }()
+				srv.ServeHTTP(w, r)
+			}()
+			if panicked != nil {
+				return evid.Failf("c17.panic", "GET %q: %v", p, panicked)
+			}
+			if f := check(fmt.Sprintf("GET %q (prefix %q, index %q, listing %v)", p, c.Prefix, c.Index, c.Listing), w.Code, w.Body.String()); f != nil {
+				f.Msg += fmt.Sprintf("\nentries: %+v", c.Entries)
+				return evid.Outcome{Fail: f}
+			}
+			// did the request try to leave the root, lexically or through a link?
+			rel := p
+			if c.Prefix != "" {
+				rel = strings.TrimPrefix(rel, c.Prefix)
+			}
+			lex := filepath.Join(realRoot, filepath.FromSlash("/"+rel))
+			if real, err := filepath.EvalSymlinks(lex); err == nil && real != realRoot && !strings.HasPrefix(real, realRoot+string(filepath.Separator)) {
+				labels["resolves-outside"] = true
+				nontrivial = true
+			}
+			if strings.Contains(p, "..") {
+				labels["dot-dot"] = true
+				nontrivial = true
+			}
 		}
 	}
 	// non-vacuity: a plain file under a plain root is served
